@@ -96,6 +96,8 @@ var (
 	vfCurrentJS  atomic.Pointer[[]byte]
 	vfCrashCap   = os.Getenv("VF_CRASHCAP") == "1"
 	vfWatchdogOn sync.Once
+	// vfWatchdogLimit (ns) temporarily overrides the watchdog limit when non-zero
+	vfWatchdogLimit atomic.Int64
 )
 
 func vfStartWatchdog() {
@@ -114,7 +116,11 @@ func vfStartWatchdog() {
 					last, lastChange = cur, time.Now()
 					continue
 				}
-				if time.Since(lastChange) > limit {
+				lim := limit
+				if v := vfWatchdogLimit.Load(); v > 0 && time.Duration(v) < lim {
+					lim = time.Duration(v)
+				}
+				if time.Since(lastChange) > lim {
 					buf := make([]byte, 8<<20)
 					n := runtime.Stack(buf, true)
 					if vfEnv.Out != "" {
@@ -123,7 +129,7 @@ func vfStartWatchdog() {
 							_ = os.WriteFile(filepath.Join(vfEnv.Out, fmt.Sprintf("stuck-%d.json", vfEnv.Shard)), *js, 0o644)
 						}
 					}
-					fmt.Fprintf(os.Stderr, "VF-WATCHDOG: no progress for %v\n", limit)
+					fmt.Fprintf(os.Stderr, "VF-WATCHDOG: no progress for %v\n", lim)
 					os.Exit(3)
 				}
 			}
